@@ -38,6 +38,7 @@ def run(ctx, tier):
     ctx.rule("M2", "fast_test and fast_match handle the four component types identically")
     ctx.rule("M3", "test and match agree on input plumbing")
     ctx.rule("M4", "compile classifies a component into a shortcut only under the guards that make the shortcut exact")
+    ctx.rule("M5", "a result<T> that starts default-constructed is read only after it was assigned")
     cfgs = C.configs_for(tier, thorough=["release", "devchecks", "amalgamated"])
     fxs = C.load_configs(ctx, cfgs)
     for name in cfgs:
@@ -45,7 +46,58 @@ def run(ctx, tier):
         check(ctx, fxs[name])
 
 
+def check_default_results(ctx, fx):
+    """tl::expected<T,E>{} is *engaged* (it holds a default T): using has_value() on such a local as a "was it set" flag
+    treats "no base URL" as "an empty base URL".  Every read of a default-constructed result<T> local must therefore be
+    dominated by an assignment to it (must-dataflow, with facts surviving joins as implications of the guarding test)."""
+    from lib.mustflow import MustFlow
+    n = 0
+    for f in fx.functions:
+        if not C.first_party(f):
+            continue
+        locs = {}
+        for b in f["blocks"]:
+            for st in b["stmts"]:
+                if st["k"] == "decl":
+                    for v in st["vars"]:
+                        ty = (v.get("ty") or "").replace("const ", "")
+                        init = v.get("init")
+                        if ty.startswith(("tl::expected<", "ada::result<", "result<")) and \
+                                (init is None or (init.get("k") == "construct" and not init.get("args"))):
+                            locs[v["id"]] = v["name"]
+        if not locs:
+            continue
+        mf = MustFlow(f)
+        for b in f["blocks"]:
+            items = [(i, st, list(X.stmt_nodes(st, local=True))) for i, st in enumerate(b["stmts"])]
+            c = C.term_cond(b)
+            if c is not None:
+                items.append((len(b["stmts"]), b["term"], list(X.walk(c, local=True))))
+            for i, st, nodes in items:
+                writes = set()
+                for nd in nodes:
+                    if nd.get("k") == "call" and nd.get("name") == "operator=" and nd.get("recv") is not None:
+                        r0 = X.strip(nd["recv"])
+                        if r0.get("k") == "ref":
+                            writes.add(id(r0))
+                for nd in nodes:
+                    if nd.get("k") == "ref" and nd.get("id") in locs and id(nd) not in writes and st.get("k") != "decl":
+                        fs = mf.facts_before(b["id"], i)
+                        if fs is None:
+                            continue
+                        n += 1
+                        pth = "L#%s:%s" % (nd["id"], nd["name"])
+                        ctx.check("M5", "%s: read of `%s` in `%s`" % (f["qname"], nd["name"], (st.get("text") or st.get("cond_text") or "")[:50].strip()),
+                                  ("asg:" + pth) in fs, "assigned on every path",
+                                  "`%s` is a default-constructed result<T> — which is engaged and holds a default T — and is read here on a "
+                                  "path where it was never assigned: its has_value() is true although nothing was parsed, so \"no "
+                                  "base URL\" is treated as \"an empty base URL\"" % nd["name"],
+                                  where=(st.get("loc") or st.get("cond_loc") or "").replace("/repo/", ""))
+    ctx.floor("M5", n, 4, "reads of default-constructed result<T> locals")
+
+
 def check(ctx, fx):
+    check_default_results(ctx, fx)
     # ---- M1 -----------------------------------------------------------------------
     targets = []
     for nm in ("match", "test", "test_components", "exec", "has_regexp_groups", "get_protocol", "get_username",
